@@ -1,0 +1,12 @@
+// SPDX-FileCopyrightText: 2026 The Pion community <https://pion.ly>
+// SPDX-License-Identifier: MIT
+
+//go:build !verif
+
+package ice
+
+import "time"
+
+// verifTakeContact is the disabled form of the verification hook in connectivityChecks
+// (see verif_export_agent.go, build tag verif): a constant-false no-op.
+func verifTakeContact(*Agent, func(), *time.Time) bool { return false }
